@@ -61,7 +61,7 @@ Definition panic_allow : list allow := [
   mkAllow (mkSite "api/resource" "(*Resource).enable" SkPanic 0)
     (KnownFinding "panic:api/resource.(*Resource).enable:explicit-wrong-node-kind");
   mkAllow (mkSite "api/resource" "(*Resource).MustYaml" SkFatal 0)
-    (Unreachable "only used while formatting the 'too many possible referral targets' error in filters/nameref; AsYAML = MarshalJSON + JSONToYAML of a resource that was already converted to a map by the same transformer (GetSlice/Map succeeded earlier on the same node)");
+    (KnownFinding "exit:log.Fatal:api/resource.(*Resource).MustYaml");
   mkAllow (mkSite "api/resource" "(*Resource).SetBehavior" SkPanic 0)
     (Unreachable "only called from Factory.makeOne with generator args, on the RNode freshly built by generators.MakeConfigMap/MakeSecret: metadata.annotations is absent or a mapping of strings built from a Go map, so SetAnnotations cannot fail");
   mkAllow (mkSite "api/resource" "(*Resource).PrevIds" SkPanic 0)
